@@ -76,7 +76,7 @@ def units(tier):
             continue
         f08 = G.is_f08(p)
         for edit in ("del_open", "del_end", "dup_end"):
-            if name in ("do_label", "do_label_action", "do_shared") and edit != "del_end":
+            if tpl.split("\n")[-1].startswith("{L") and not tpl.split("\n")[-1].startswith("{L1} end do") and edit != "del_end":
                 # removing 'DO 10 ...' leaves a valid labelled statement, and repeating '10 CONTINUE' only
                 # breaks a label-uniqueness constraint: neither is a nesting error
                 continue
@@ -165,9 +165,15 @@ def edit(ctx):
     else:
         words = lines[e].strip().split(" ")
         old = words[-1]
-        new = G.fresh_name(ctx, "e", len(old))
-        G.require(ctx, new.lower() != old.lower())
-        lines = lines[:e] + [" ".join(words[:-1] + [new])] + lines[e + 1:]
+        if old.lower() in ("interface", "type", "do", "if", "select", "block", "associate", "critical", "enum", "where", "forall", "subroutine", "function", "module", "program"):
+            # the END carries no name: give it one although the opening statement has none
+            new = G.fresh_name(ctx, "e", 2)
+            lines = lines[:e] + [" ".join(words + [new])] + lines[e + 1:]
+            kind = "name_on_end"
+        else:
+            new = G.fresh_name(ctx, "e", len(old))
+            G.require(ctx, new.lower() != old.lower())
+            lines = lines[:e] + [" ".join(words[:-1] + [new])] + lines[e + 1:]
     _rejected(ctx, "\n".join(lines) + "\n", p["std"], "ill-nested program accepted (" + kind + " of " + p["of"] + ")")
 
 
